@@ -114,3 +114,4 @@ package snowflake_proxy
 //@   assumes s != nil && pc != nil
 //@   after call StripLocalAddresses ghost strippedSDP = ret0
 //@   at call SerializeSessionDescription assert {sends-the-stripped-text} !s.keepLocalAddresses ==> calls(StripLocalAddresses) == 1 && arg0.SDP == strippedSDP
+//@ guarded global currentNATType by currentNATTypeAccess
